@@ -11,8 +11,12 @@ package c05
 //     the section its `%meta cpdef <cp> romcode:<section>` names;
 //   - `%macro name 0 … %endmacro` is replaced textually at every use (recursively);
 //   - mov is a pseudo-instruction: mov rX,<literal> = rset, mov rX,rY = cpy,
-//     mov rX,iK = i2rw and mov oK,rX = r2owa when the io mode (section metadata `iomode`,
-//     else `%meta bmdef global iomode`) is sync; jmp = j, noop = nop;
+//     mov rX,iK = i2rw and mov oK,rX = r2owa when the io mode of the line is sync; jmp = j, noop = nop;
+//   - the io mode of a line is, in this order of precedence (README: iomode is "the default I/O mode for the
+//     section"; metadatainfer.go implements line, then section, then global, the same for inputs and outputs):
+//     1. line-level metadata `iomode:<sync|async>` written after a label (`lbl: iomode:sync`), which the line
+//     parser applies to the next instruction line; 2. the `iomode:` metadata of the %section line; 3. `%meta
+//     bmdef global iomode:`. A value other than sync/async at one level counts as absent at that level;
 //   - literals: decimal, 0d, 0u (optionally `.0…`), 0x, 0b, and the sized forms 0x<n>, 0b<n>, 0u<n>, 0d<n>;
 //   - registers wrap at `%meta bmdef global registersize`;
 //   - `%meta ioatt <name> cp:<cp|bm>, index:<k>, type:<input|output>` pairs make streams:
@@ -35,12 +39,13 @@ const (
 )
 
 type refItem struct {
-	Kind  int
-	Name  string   // label name, or entry target
-	Op    string   // instruction mnemonic
-	Args  []string // operands
-	Line  int      // 1-based source line
-	Depth int      // macro nesting depth that produced the item (0 = written in the section)
+	Kind   int
+	Name   string   // label name, or entry target
+	Op     string   // instruction mnemonic
+	Args   []string // operands
+	Line   int      // 1-based source line
+	Depth  int      // macro nesting depth that produced the item (0 = written in the section)
+	LineIO string   // line-level iomode metadata ("" = none)
 }
 
 type refSection struct {
@@ -129,6 +134,7 @@ func parseSource(text string) (*refSource, error) {
 	var curSec *refSection
 	var curMac *refMacro
 	var pending []refItem // labels waiting for the next line of the current block
+	pendingIO := ""       // line-level iomode metadata waiting for the next instruction line
 	flushTrailing := func() {
 		if len(pending) > 0 {
 			rs.Feat["trailing-label"] = true
@@ -144,6 +150,7 @@ func parseSource(text string) (*refSource, error) {
 			}
 			pending = nil
 		}
+		pendingIO = ""
 	}
 	lines := strings.Split(text, "\n")
 	for ln, raw := range lines {
@@ -299,8 +306,21 @@ func parseSource(text string) (*refSource, error) {
 			}
 			if strings.HasSuffix(f[0], ":") {
 				name := strings.TrimSuffix(f[0], ":")
-				if len(f) != 1 || !isIdent(name) {
+				if !isIdent(name) {
 					return nil, unsupported("line %d: label line %q", ln+1, line)
+				}
+				if len(f) > 1 {
+					// line-level metadata: key:value pairs that belong to the next instruction line
+					meta, err := parsePairs(strings.Join(f[1:], ""))
+					if err != nil {
+						return nil, err
+					}
+					for k, v := range meta {
+						if k != "iomode" {
+							return nil, unsupported("line %d: line metadata %s", ln+1, k)
+						}
+						pendingIO = v
+					}
 				}
 				pending = append(pending, refItem{Kind: itLabel, Name: name, Line: ln + 1})
 				continue
@@ -313,7 +333,14 @@ func parseSource(text string) (*refSource, error) {
 					args = append(args, strings.TrimSpace(a))
 				}
 			}
-			it := refItem{Kind: itInstr, Op: op, Args: args, Line: ln + 1}
+			it := refItem{Kind: itInstr, Op: op, Args: args, Line: ln + 1, LineIO: pendingIO}
+			if pendingIO != "" {
+				if op == "entry" || rs.Macros[op] != nil {
+					return nil, unsupported("line %d: line metadata on a directive or macro use", ln+1)
+				}
+				rs.Feat["line-level-iomode"] = true
+			}
+			pendingIO = ""
 			if op == "entry" && curSec != nil {
 				if len(args) != 1 || !isIdent(args[0]) {
 					return nil, unsupported("line %d: entry directive", ln+1)
@@ -472,6 +499,7 @@ type refIns struct {
 	Lit    string // literal notation
 	Line   int
 	Depth  int
+	IOHow  string // for a pseudo-move to/from a port: which metadata levels were present
 }
 
 type refProg struct {
@@ -665,9 +693,25 @@ func (rs *refSource) compile(secName string, lenient bool) (*refProg, int, error
 	if err != nil {
 		return nil, 0, err
 	}
-	iomode := sec.IOMode
-	if iomode == "" {
-		iomode = rs.IOMode
+	// io mode of a line: line-level metadata, then the section's, then the global one
+	known := func(m string) bool { return m == "sync" || m == "async" }
+	ioOf := func(it refItem) (mode, how string) {
+		lv := func(m string) string {
+			if known(m) {
+				return m
+			}
+			return "-"
+		}
+		how = fmt.Sprintf("line=%s,section=%s,global=%s", lv(it.LineIO), lv(sec.IOMode), lv(rs.IOMode))
+		switch {
+		case known(it.LineIO):
+			return it.LineIO, how
+		case known(sec.IOMode):
+			return sec.IOMode, how
+		case known(rs.IOMode):
+			return rs.IOMode, how
+		}
+		return "", how
 	}
 	p := &refProg{Section: secName, Labels: map[string]int{}, Entry: -1, Ins_: map[int]bool{}, Outs_: map[int]bool{}}
 	entryName := ""
@@ -798,10 +842,15 @@ func (rs *refSource) compile(secName string, lenient bool) (*refProg, int, error
 				in.Pseudo = true
 				if pt, ok := parsePort(a[0], 'o'); ok {
 					// mov oK, rX
+					iomode, how := ioOf(it)
 					if iomode != "sync" && !lenient {
 						e = unsupported("line %d: mov to an output with iomode %q", it.Line, iomode)
 						break
 					}
+					if iomode != "sync" {
+						rs.Feat["unused-section:async-io"] = true
+					}
+					in.IOHow = "io-out:" + how
 					in.Op, in.Port = "out", pt
 					p.Outs_[pt] = true
 					in.Rs, e = reg(1)
@@ -811,10 +860,15 @@ func (rs *refSource) compile(secName string, lenient bool) (*refProg, int, error
 					break
 				}
 				if pt, ok := parsePort(a[1], 'i'); ok {
+					iomode, how := ioOf(it)
 					if iomode != "sync" && !lenient {
 						e = unsupported("line %d: mov from an input with iomode %q", it.Line, iomode)
 						break
 					}
+					if iomode != "sync" {
+						rs.Feat["unused-section:async-io"] = true
+					}
+					in.IOHow = "io-in:" + how
 					in.Op, in.Port = "in", pt
 					p.Ins_[pt] = true
 					break
@@ -1044,7 +1098,8 @@ type refStats struct {
 	Pseudo              int
 	PseudoKinds         map[string]bool
 	Lits                map[string]bool
-	MacroInstr          int // executed instructions that came from a macro body
+	IOHow               map[string]bool // metadata combinations of the executed pseudo-moves
+	MacroInstr          int             // executed instructions that came from a macro body
 	FellOff             bool
 	Overflow            bool // a literal does not fit the register
 	Steps               int
@@ -1097,6 +1152,7 @@ func (n *refNet) run(in [][]uint64, rounds, cap int, rendezvous bool) *refResult
 	st := &res.Stats
 	st.PseudoKinds = map[string]bool{}
 	st.Lits = map[string]bool{}
+	st.IOHow = map[string]bool{}
 	for r := 0; r < rounds; r++ {
 		moved := false
 		for ci, c := range cps {
@@ -1178,6 +1234,9 @@ func (n *refNet) run(in [][]uint64, rounds, cap int, rendezvous bool) *refResult
 			}
 			moved = true
 			st.Steps++
+			if in.IOHow != "" {
+				st.IOHow[in.IOHow] = true
+			}
 			if in.Pseudo {
 				st.Pseudo++
 				st.PseudoKinds[in.Mn+">"+in.Op] = true
